@@ -12,6 +12,7 @@ import (
 // The isolated scope is a isolated context scope depended from parent scope. The isolated scope doesn't affect parent.
 type Isolated struct {
 	done     chan struct{}
+	doneOnce sync.Once
 	errors   []error
 	errorsMU sync.Mutex
 	parent   app.ContextScope
@@ -69,19 +70,26 @@ func (scp *Isolated) Kill() {
 
 // Stop stop the scope context without error
 func (scp *Isolated) Stop() {
-	if !scp.IsDone() {
+	scp.doneOnce.Do(func() {
 		close(scp.done)
-	}
+	})
 }
 
 // Err return cumulative error if the scope context contains any error
 func (scp *Isolated) Err() error {
-	return goaterr.ToError(scp.errors)
+	return goaterr.ToError(scp.Errors())
 }
 
 // Errors return scope errors
 func (scp *Isolated) Errors() []error {
-	return scp.errors
+	scp.errorsMU.Lock()
+	defer scp.errorsMU.Unlock()
+	if len(scp.errors) == 0 {
+		return nil
+	}
+	errs := make([]error, len(scp.errors))
+	copy(errs, scp.errors)
+	return errs
 }
 
 // AppendErrors append many errors to scope (skip nil errors)
